@@ -37,6 +37,7 @@ func init() {
 			{Name: "chains", Run: runChains},
 			{Name: "exotic", Run: runExotic},
 			{Name: "forin-mutate", Run: runForInMutate},
+			{Name: "order", Run: runOrder},
 		},
 		Assumptions: []string{
 			"ref/objmodel is a faithful transcription of ES5.1 8.10, 8.12, 10.6, 15.2.3, 15.4.5.1, 15.5.5.2 (trusted; validated against V8 at development time)",
